@@ -73,15 +73,15 @@ def run(ck, facts, tier):
         okok = len(oks) == 2
         for c, v in oks:
             okok = okok and c.get(empty) is False and c.get(under) is False and c.get(over) is False and \
-                ((c.get(some_arm) and c.get(all_some) is True) or (c.get(none_arm) and c.get(all_none) is True))
+                ((c.get(some_arm) is True and c.get(all_some) is True) or (c.get(some_arm) is False and c.get(all_none) is True))
             x = v.tag[2] if len(v.tag) == 3 else None
             okok = okok and isinstance(x, Rec) and vkey(x.fields.get("fx_rates")) == vkey(RATES) and vkey(x.fields.get("currencies")) == vkey(cur) and \
                 vkey(x.fields.get("fx_array")) == vkey(want_fx)
         ck.check(r1, "try_new[%s]:ok-only-if-all-valid" % base_name, okok, "an Ok market is reachable without passing every validation, or does not store (quotes, currency set, "
                  "create_fx_array(currencies, quotes, One)?)", where, detail=paths.fmt_paths(got)[:900], sample="Ok{fx_rates, currencies, create_fx_array(&currencies, &fx_rates, One)?}")
         if base_name == "no base":
-            s_err = [c for c, _ in errs if c.get(some_arm)]
-            n_err = [c for c, _ in errs if c.get(none_arm)]
+            s_err = [c for c, _ in errs if c.get(some_arm) is True]
+            n_err = [c for c, _ in errs if c.get(some_arm) is False]
             ck.check(r7, "settlement[first is Some]", len(s_err) == 1 and s_err[0].get(all_some) is False, "guard is not: every quote's settlement equals the first quote's date",
                      where, detail=str(s_err)[:500], sample="!all(|d| d.settlement.map_or(false, |v| v == date)) -> Err")
             ck.check(r7, "settlement[first is None]", len(n_err) == 1 and n_err[0].get(all_none) is False, "guard is not: every quote's settlement is None", where,
@@ -140,7 +140,7 @@ def run(ck, facts, tier):
         others = [(c, v) for c, v in ps if c.get(done) is False]
         ck.check(r5, "otherwise-Err-or-recurse", bool(others) and all((isinstance(v, Sym) and (v.tag[:2] == ("ctor", "Err") or v.tag == ("recurse",))) for _, v in others),
                  "an incomplete matrix can be reported as solved", where, detail=paths.fmt_paths(got)[:500], sample="Err(degenerate) | recursive call")
-        ck.check(r5, "no-node-left->Err", any(isinstance(v, Sym) and v.tag[:2] == ("ctor", "Err") and any(isinstance(a, tuple) and a[:2] == ("arm", "None") and p for a, p in c.items())
+        ck.check(r5, "no-node-left->Err", any(isinstance(v, Sym) and v.tag[:2] == ("ctor", "Err") and any(isinstance(a, tuple) and a[:2] == ("arm", ("Some", "_")) and p is False for a, p in c.items())
                                                for c, v in others), "exhausting the candidate nodes does not give Err (cyclic / disconnected quote sets would loop or succeed)", where, sample="sampled_node None -> Err")
         # writes recorded on the arrays passed to the recursive call
         okw = bool(rec_calls)
